@@ -2210,7 +2210,17 @@ class Engine(object):
             try:
                 val = SSeq(Seq(Int).unwrap(val), Int)
             except Unsupported:
-                raise Unsupported('symbolic index into a concrete-spine list of non-ints')
+                if getattr(self, 'in_spec', False):
+                    raise Unsupported('symbolic index into a concrete-spine list of non-ints (in a specification)')
+                # a list of known length whose elements are not integers: one path per position (the index in range is a
+                # safety obligation, as for symbolic sequences)
+                n_ = len(val)
+                ti = Int.unwrap(idx)
+                self.oblige('%s.index@%s' % (self.c.funcname, self.rel(node)), z3.And(ti >= -n_, ti < n_), 'safety')
+                for i_ in range(n_):
+                    if self.branch(SBool(z3.Or(ti == i_, ti == i_ - n_))):
+                        return val[i_]
+                raise PyRaise(PExc(IndexError, tag=what))
             if getattr(self, 'in_spec', False):
                 n = z3.Length(val.t)
                 ti = Int.unwrap(idx)
